@@ -702,12 +702,12 @@ package anytype
 //@   requires invO(ego)
 //@   requires args-ok: forall j int :: 0 <= j && j < len(values) ==> okArg(values[j])
 //@   let m := len(values)
+//@   let A := mem(values)
 //@   assigns  obj(ego)
 //@   panics_iff !even(m) || (exists j int :: 0 <= j && j < m && even(j) && (!isVStr(values[j]) || !supp(values[j+1])))
-//@   ensures  keys: forall k str :: {has(ego.val, k)} has(ego.val, k) == (old(has(ego.val, k)) || (exists j int :: 0 <= j && j < m && even(j) && vstr(values[j]) == k))
-//@   ensures  untouched: forall k str :: {ego.val[k]} (forall j int :: 0 <= j && j < m && even(j) ==> vstr(values[j]) != k) ==> ego.val[k] == old(ego.val[k])
-//@   ensures  touched: forall k str :: {ego.val[k]} (exists j int :: 0 <= j && j < m && even(j) && vstr(values[j]) == k) ==> (exists j int :: 0 <= j && j < m && even(j) && vstr(values[j]) == k && wrapsS(ego.val[k], values[j+1]))
-//@   ensures  last-pair-wins: m >= 2 ==> wrapsS(ego.val[vstr(values[m-2])], values[m-1])
+//@   ensures  keys: forall k str :: {has(ego.val, k)} has(ego.val, k) == (old(has(ego.val, k)) || lastIdx(A, m, k) >= 0)
+//@   ensures  last-pair-wins: forall k str :: {ego.val[k]} lastIdx(A, m, k) >= 0 ==> wrapsS(ego.val[k], values[lastIdx(A, m, k) + 1])
+//@   ensures  untouched: forall k str :: {ego.val[k]} lastIdx(A, m, k) < 0 ==> ego.val[k] == old(ego.val[k])
 //@   ensures  same-map: mapid(ego.val) == old(mapid(ego.val)) && ego.ptr == old(ego.ptr)
 //@   ensures  card-none: m == 0 ==> len(ego.val) == old(len(ego.val))
 //@   ensures  card-one: m == 2 ==> len(ego.val) == old(len(ego.val)) + (old(has(ego.val, vstr(values[0]))) ? 0 : 1)
@@ -717,10 +717,9 @@ package anytype
 //@     invariant card-none: i == 0 ==> len(ego.val) == old(len(ego.val))
 //@     invariant card-one: i == 2 ==> len(ego.val) == old(len(ego.val)) + (old(has(ego.val, vstr(values[0]))) ? 0 : 1)
 //@     invariant same-map: mapid(ego.val) == old(mapid(ego.val)) && ego.ptr == old(ego.ptr)
-//@     invariant keys: forall k str :: {has(ego.val, k)} has(ego.val, k) == (old(has(ego.val, k)) || (exists j int :: 0 <= j && j < i && even(j) && vstr(values[j]) == k))
-//@     invariant untouched: forall k str :: {ego.val[k]} (forall j int :: 0 <= j && j < i && even(j) ==> vstr(values[j]) != k) ==> ego.val[k] == old(ego.val[k])
-//@     invariant touched: forall k str :: {ego.val[k]} (exists j int :: 0 <= j && j < i && even(j) && vstr(values[j]) == k) ==> (exists j int :: 0 <= j && j < i && even(j) && vstr(values[j]) == k && wrapsS(ego.val[k], values[j+1]))
-//@     invariant last-pair-wins: i >= 2 ==> wrapsS(ego.val[vstr(values[i-2])], values[i-1])
+//@     invariant keys: forall k str :: {has(ego.val, k)} has(ego.val, k) == (old(has(ego.val, k)) || lastIdx(A, i, k) >= 0)
+//@     invariant last-pair-wins: forall k str :: {ego.val[k]} lastIdx(A, i, k) >= 0 ==> 0 <= lastIdx(A, i, k) && lastIdx(A, i, k) + 1 < i && wrapsS(ego.val[k], values[lastIdx(A, i, k) + 1])
+//@     invariant untouched: forall k str :: {ego.val[k]} lastIdx(A, i, k) < 0 ==> ego.val[k] == old(ego.val[k])
 //@     invariant none-bad: forall j int :: 0 <= j && j < i && even(j) ==> isVStr(values[j]) && supp(values[j+1])
 //@     decreases m - i
 
@@ -787,13 +786,13 @@ package anytype
 //@ func NewObject [C06 C12 C09 C19]
 //@   requires args-ok: forall j int :: 0 <= j && j < len(values) ==> okArg(values[j])
 //@   let m := len(values)
+//@   let A := mem(values)
 //@   assigns  nothing
 //@   panics_iff !even(m) || (exists j int :: 0 <= j && j < m && even(j) && (!isVStr(values[j]) || !supp(values[j+1])))
 //@   plet r := obj(voref(result))
 //@   ensures  new: isVObj(result) && fresh(r) && plain(r) && invO(r) && r.ptr == result && fresh(mapid(r.val))
-//@   ensures  keys: forall k str :: has(r.val, k) == (exists j int :: 0 <= j && j < m && even(j) && vstr(values[j]) == k)
-//@   ensures  touched: forall k str :: has(r.val, k) ==> (exists j int :: 0 <= j && j < m && even(j) && vstr(values[j]) == k && wrapsS(r.val[k], values[j+1]))
-//@   ensures  last-pair-wins: m >= 2 ==> wrapsS(r.val[vstr(values[m-2])], values[m-1])
+//@   ensures  keys: forall k str :: {has(r.val, k)} has(r.val, k) == (lastIdx(A, m, k) >= 0)
+//@   ensures  last-pair-wins: forall k str :: {r.val[k]} lastIdx(A, m, k) >= 0 ==> wrapsS(r.val[k], values[lastIdx(A, m, k) + 1])
 //@   ensures  empty: m == 0 ==> len(r.val) == 0
 
 //@ func (*object).Keys [C06 C09]
@@ -1069,3 +1068,97 @@ package anytype
 //@   panics_iff !supp(dict)
 //@   plet r := obj(voref(result))
 //@   ensures  new: isVObj(result) && fresh(r) && plain(r) && invO(r) && r.ptr == result && fresh(mapid(r.val))
+
+// ---------------------------------------------------------------------------
+// Parser (C04, C20)
+// ---------------------------------------------------------------------------
+
+//@ extern unicode/utf8.DecodeRuneInString
+//@   assigns  nothing
+//@   panics_iff false
+//@   ensures  size-range: 0 <= size && size <= 4 && size <= len(s) && (len(s) > 0 ==> size >= 1)
+//@   ensures  ascii: len(s) > 0 && r < 128 ==> size == 1 && r == s[0]
+//@   ensures  rune-range: 0 <= r && r <= 1114111
+
+//@ extern unicode.IsSpace
+//@   assigns  nothing
+//@   panics_iff false
+//@   ensures  newline-is-space: r == '\n' ==> result
+
+//@ extern strconv.ParseInt
+//@   assigns  nothing
+//@   panics_iff false
+//@   ensures  true
+
+//@ extern strconv.ParseFloat
+//@   assigns  nothing
+//@   panics_iff false
+//@   ensures  true
+
+//@ extern strconv.ParseBool
+//@   assigns  nothing
+//@   panics_iff false
+//@   ensures  true
+
+//@ func unquote trusted [C03]
+//@   assigns  nothing
+//@   panics_iff false
+//@   ensures  true
+
+//@ func parseField [C04 C01 C03 C20]
+//@   assigns  nothing
+//@   panics_iff false
+//@   ensures  exclusive: result1 == nil ==> okArg(result0) && supp(result0) && (isVNil(result0) || isVInt(result0) || isVFloat(result0) || isVBool(result0))
+//@   ensures  error-cites-line: result1 != nil ==> isVErr(result1)
+
+//@ template parse-machine(FNAME, REFOF, CLOSECH, ISKIND, CVAR)
+//@ func FNAME [C04 C20]
+//@   requires line-room: deref(line) >= 1 && deref(line) + len(json) < MaxInt
+//@   let L0 := deref(line)
+//@   let n := len(json)
+//@   assigns  cell(line)
+//@   panics_iff false
+//@   ensures  exclusive: (result2 != nil && result0 == nil && result1 == 0) || (result2 == nil && ISKIND(result0) && okVal(result0) && fresh(REFOF(result0)) && plain(REFOF(result0)) && 0 <= result1 && result1 < n && json[result1] == CLOSECH)
+//@   ensures  line-bound: result2 == nil ==> L0 <= deref(line) && deref(line) <= L0 + result1
+//@   loop 1
+//@     invariant range: 0 <= i && i <= n
+//@     invariant start: (state == 0) == (i == 0)
+//@     invariant built: state != 0 ==> ISKIND(CVAR) && okVal(CVAR) && fresh(REFOF(CVAR)) && plain(REFOF(CVAR))
+//@     invariant line-bound: L0 <= deref(line) && deref(line) <= L0 + i
+//@     decreases n - i
+//@ end
+//@ instantiate parse-machine(parseList, vlref, ']', isVList, list)
+//@ instantiate parse-machine(parseObject, voref, '}', isVObj, object)
+
+//@ extern strings.Index
+//@   assigns  nothing
+//@   panics_iff false
+//@   ensures  range: -1 <= result && result <= len(s) - len(substr)
+//@   ensures  found: result >= 0 && len(substr) == 1 ==> s[result] == substr[0]
+//@   ensures  first: len(substr) == 1 ==> (forall k int :: 0 <= k && k < len(s) && (result < 0 || k < result) ==> s[k] != substr[0])
+
+//@ extern strings.Count
+//@   assigns  nothing
+//@   panics_iff false
+//@   ensures  range: 0 <= result && result <= len(s) + 1 && (len(substr) >= 1 ==> result <= len(s))
+//@   ensures  newlines: substr == "\n" ==> result == nlcount(s, 0, len(s))
+
+//@ extern os.ReadFile
+//@   assigns  nothing
+//@   panics_iff false
+//@   ensures  true
+
+//@ template parse-entry(FNAME, REFOF, ISKIND)
+//@ func FNAME [C04 C20]
+//@   requires fits-in-memory: len(json) < MaxInt - 1
+//@   assigns  nothing
+//@   panics_iff false
+//@   ensures  exclusive: (result1 != nil && result0 == nil) || (result1 == nil && ISKIND(result0) && okVal(result0) && fresh(REFOF(result0)))
+//@ end
+//@ instantiate parse-entry(ParseList, vlref, isVList)
+//@ instantiate parse-entry(ParseObject, voref, isVObj)
+
+//@ func ParseFile [C04 C20]
+//@   assigns  nothing
+//@   panics_iff false
+//@   ensures  exclusive: (result1 != nil && result0 == nil) || (result1 == nil && isVObj(result0) && okVal(result0))
